@@ -89,6 +89,8 @@ func checkC08(c *Ctx) {
 	c08R6(c)
 	c.Rule("C08.R7", "acknowledged bytes reach the reader: receiver.buffer is appended to only by processIntoBuffer, consumed only by the receiver's read function, never reset, truncated, exposed or replaced (see C16.R6) (E4 who-may-call, classified by method)")
 	recvBufferOwners(c, "C08.R7")
+	c.Rule("C08.R8", "never corrupted: a frame payload that outlives the call that decoded it is a private copy — the decoder copies it out of the muxer's reused read buffer, or every retaining site (reassembly heap, unreliable queue) does (see C09.R6) (def-use)")
+	payloadOwnershipRule(c, "C08.R8")
 	c08R2(c)
 	c08R3(c)
 	c08R4(c)
@@ -528,7 +530,7 @@ func checkC09(c *Ctx) {
 	c.Rule("C09.R3", "offered once, as requested: the accept queue is sent to only in make...TubeWithID under !req; those are called with req=false only from receiver, on the not-found edge of getTube under the REQ flag, with the type and reliability of that frame (E4 + E1)")
 	c.Rule("C09.R4", "one frame per unreliable message: WriteMsgUDP builds one frame with data = b and dataLength = len(b) and sends it once; Unreliable.receive enqueues the frame's payload once (E1)")
 	c.Rule("C09.R5", "the two ends pick from disjoint id sets: pickTubeID starts at int(m.idParity), steps by 2, stays below 256 before narrowing and returns an id only on the not-present edge of the map of the requested reliability; newMuxer assigns parity 0 iff isServer; Client / Server pass false / true (induction shape + E1)")
-	c.Rule("C09.R6", "payload ownership: the data of a decoded frame is a private copy, never a slice of the muxer's reused read buffer (def-use of frame.data in fromBytes)")
+	c.Rule("C09.R6", "payload ownership: a frame payload that outlives the call that decoded it is a private copy, never a slice of the muxer's reused read buffer: the decoder copies, or every retaining site (reassembly heap, unreliable queue) does (def-use)")
 	c.Rule("C09.R7", "id quarantine covers the peer's last-ack wait: the multiple of the RTT estimate for which reapTube keeps a closed reliable tube's id reserved is not smaller than the multiple after which enterLastAckState gives up waiting for the final ACK (otherwise the id is handed to a new tube while the peer still maps it to the old one) (sibling constants)")
 	c.Decides("keying of the tube tables, atomicity of id allocation, single offer, framing of unreliable messages, parity split, payload ownership, the quarantine / last-ack multipliers")
 	c.NotDecided("late frames of a closed tube reaching a successor with the same id (history-dependent); interleavings; the two ends' RTT estimates differing")
@@ -1012,7 +1014,7 @@ func c09R4(c *Ctx) {
 			}
 			if sent != nil {
 				n++
-				if !endsInField(sent, fData, false) {
+				if !endsInField(sent, fData, false) && !wholeCopyOf(p.Resolve(sent, i), fData) {
 					fs2.add("whole-message", "Unreliable.receive enqueues something other than the frame's payload", ins, p)
 				}
 			}
@@ -1145,43 +1147,131 @@ func c09R5(c *Ctx) {
 	}
 }
 
-func c09R6(c *Ctx) {
+func c09R6(c *Ctx) { payloadOwnershipRule(c, "C09.R6") }
+
+// payloadOwnershipRule (C09.R6, shared as C08.R8): a frame payload that outlives the call that decoded it
+// is a private copy. The muxer decodes every datagram out of one reused read buffer. Either the decoder
+// copies the payload (then every consumer is safe), or every site that retains it does: the reassembly
+// heap of the reliable receiver (pqItem.value) and whatever Unreliable.receive hands to its queue.
+func payloadOwnershipRule(c *Ctx, rule string) {
 	P := c.P
 	fn := P.Func("tubes", "fromBytes")
 	fData := P.Field("tubes", "frame", "data")
 	if fn == nil || fData == nil {
-		c.Undecided("C09.R6", "tubes.fromBytes", "function or field not found")
+		c.Undecided(rule, "tubes.fromBytes", "function or field not found")
 		return
 	}
+	isFreshCopy := func(val ssa.Value) bool {
+		switch v := strip(val).(type) {
+		case *ssa.Call:
+			if b, ok := v.Call.Value.(*ssa.Builtin); ok && b.Name() == "append" && (isNilConst(v.Call.Args[0]) || isFreshSlice(v.Call.Args[0])) {
+				return true
+			}
+			if id := calleeID(v); id == "bytes.Clone" || id == "slices.Clone" {
+				return true
+			}
+		case *ssa.MakeSlice:
+			return true
+		case *ssa.Slice:
+			if _, ok := strip(v.X).(*ssa.MakeSlice); ok {
+				return true
+			}
+			if a, ok := strip(v.X).(*ssa.Alloc); ok && a.Heap {
+				return true
+			}
+		}
+		return false
+	}
 	n := 0
+	decoderCopies := true
+	var aliasSite ssa.Instruction
 	eachInstr(fn, func(ins ssa.Instruction) {
 		st, ok := ins.(*ssa.Store)
 		if !ok || !endsInField(st.Addr, fData, false) {
 			return
 		}
 		n++
-		fresh := false
-		switch v := strip(st.Val).(type) {
-		case *ssa.Call:
-			if b, ok := v.Call.Value.(*ssa.Builtin); ok && b.Name() == "append" && (isNilConst(v.Call.Args[0]) || isFreshSlice(v.Call.Args[0])) {
-				fresh = true
-			}
-			if id := calleeID(v); id == "bytes.Clone" || id == "slices.Clone" {
-				fresh = true
-			}
-		case *ssa.MakeSlice:
-			fresh = true
-		case *ssa.Slice:
-			if _, ok := strip(v.X).(*ssa.MakeSlice); ok {
-				fresh = true
-			}
-			if a, ok := strip(v.X).(*ssa.Alloc); ok && a.Heap {
-				fresh = true
-			}
+		if !isFreshCopy(st.Val) {
+			decoderCopies = false
+			aliasSite = ins
 		}
-		c.Check(fresh, "C09.R6", FuncName(fn)+"#data-copy", P.InstrPos(ins), "payload copied out of the input", "a decoded frame's payload aliases the decoder's input; the muxer decodes every datagram out of one reused read buffer, so a payload still queued (unread unreliable message, out-of-order reliable fragment) is overwritten by the next datagram, whatever tube that belongs to")
 	})
-	c.Floor("C09.R6", "stores to frame.data in fromBytes", n, 1)
+	c.Floor(rule, "stores to frame.data in fromBytes", n, 1)
+	if n == 0 {
+		return
+	}
+	if decoderCopies {
+		c.OK(rule, FuncName(fn)+"#data-copy", P.Pos(fn.Pos()), "payload copied out of the input at decode")
+		return
+	}
+	// the decoder aliases its input: every retaining site must copy
+	msg := "a decoded frame's payload aliases the decoder's input (" + P.InstrPos(aliasSite) + ") and is retained here without a copy; the muxer decodes every datagram out of one reused read buffer, so a payload still queued (unread unreliable message, out-of-order reliable fragment) is overwritten by the next datagram, whatever tube that belongs to"
+	bad := 0
+	sites := 0
+	fValue := P.Field("tubes", "pqItem", "value")
+	for _, f := range P.ModuleFuncs("tubes") {
+		eachInstr(f, func(ins ssa.Instruction) {
+			switch x := ins.(type) {
+			case *ssa.Store:
+				if fValue != nil && endsInField(x.Addr, fValue, false) && isByteSlice(x.Val.Type()) {
+					sites++
+					if endsInField(x.Val, fData, false) || !isFreshCopy(x.Val) && derivesFromField(x.Val, fData, 0) {
+						bad++
+						c.Fail(rule, FuncName(f)+"#retains-payload", P.InstrPos(ins), msg)
+					}
+				}
+			case *ssa.Send:
+				if endsInField(x.X, fData, false) {
+					sites++
+					bad++
+					c.Fail(rule, FuncName(f)+"#retains-payload", P.InstrPos(ins), msg)
+				}
+			case *ssa.Select:
+				for _, st := range x.States {
+					if st.Dir == types.SendOnly && st.Send != nil && isByteSlice(st.Send.Type()) {
+						sites++
+						if endsInField(st.Send, fData, false) {
+							bad++
+							c.Fail(rule, FuncName(f)+"#retains-payload", P.InstrPos(ins), msg)
+						}
+					}
+				}
+			case *ssa.Call:
+				// handing the payload itself to a queue (DeadlineChan.Send and the like)
+				if fn2 := calleeFunc(&x.Call); fn2 != nil && fn2.Name() == "Send" {
+					for _, a := range callArgs(&x.Call) {
+						if isByteSlice(a.Type()) && endsInField(a, fData, false) {
+							sites++
+							bad++
+							c.Fail(rule, FuncName(f)+"#retains-payload", P.InstrPos(ins), msg)
+						}
+					}
+				}
+			}
+		})
+	}
+	if fValue == nil {
+		c.Undecided(rule, "tubes.pqItem.value", "the decoder aliases its input and the reassembly heap's payload field was not found")
+		return
+	}
+	if bad == 0 {
+		c.OK(rule, FuncName(fn)+"#data-copy", P.Pos(fn.Pos()), fmt.Sprintf("the decoder aliases its input; all %d retaining sites copy", sites))
+	}
+}
+
+// derivesFromField: v is a (re-slice of a) load of field f.
+func derivesFromField(v ssa.Value, f *types.Var, depth int) bool {
+	if v == nil || depth > 6 {
+		return false
+	}
+	v = strip(v)
+	if endsInField(v, f, true) {
+		return true
+	}
+	if sl, ok := v.(*ssa.Slice); ok {
+		return derivesFromField(sl.X, f, depth+1)
+	}
+	return false
 }
 
 // rttMultiples lists the constants k in timer durations k * <...>.RTT started in fn (incl. its closures' parents only).
@@ -1382,4 +1472,21 @@ func c08R6(c *Ctx) {
 		fs.report(c, rule, name, []string{"fin-in-order"}, P.Pos(fn.Pos()), fmt.Sprintf("holds for all %d FIN-driven state changes on the paths", nChanges))
 		c.Floor(rule, "FIN-driven state changes on paths of Reliable.receive", nChanges, 3)
 	}
+}
+
+
+// wholeCopyOf: v is a fresh copy of the whole slice held in field f: append([]byte(nil), x.f...),
+// append([]byte{}, x.f...), bytes.Clone(x.f), slices.Clone(x.f), or make + copy(dst, x.f) of len(x.f).
+func wholeCopyOf(v ssa.Value, f *types.Var) bool {
+	call, ok := strip(v).(*ssa.Call)
+	if !ok {
+		return false
+	}
+	if b, ok := call.Call.Value.(*ssa.Builtin); ok && b.Name() == "append" && len(call.Call.Args) == 2 {
+		return (isNilConst(call.Call.Args[0]) || isFreshSlice(call.Call.Args[0])) && endsInField(call.Call.Args[1], f, false)
+	}
+	if id := calleeID(call); (id == "bytes.Clone" || id == "slices.Clone") && len(call.Call.Args) == 1 {
+		return endsInField(call.Call.Args[0], f, false)
+	}
+	return false
 }
